@@ -338,8 +338,11 @@ class Helper:
         if fn.args.vararg or fn.args.kwarg:
             raise NotInlinable("star parameters")
         body = list(fn.body)
+        self.generator = any(isinstance(n, (ast.Yield, ast.YieldFrom)) for n in _walk_own(body))
+        if self.generator and generator_expression(self) is None:
+            raise NotInlinable("generator that is not a single mapping loop")
         for n in _walk_own(body):
-            if isinstance(n, (ast.Yield, ast.YieldFrom, ast.Await, ast.Global, ast.Nonlocal)):
+            if isinstance(n, (ast.Await, ast.Global, ast.Nonlocal)):
                 raise NotInlinable("generator / global")
             if isinstance(n, ast.Call) and isinstance(n.func, ast.Name) and n.func.id in ("locals", "vars", "super"):
                 raise NotInlinable("introspection")
@@ -359,6 +362,8 @@ def expansion(helper, call, caller_names, ctx, static_self=None):
     """statements (and the result expression name/None) replacing a statement-level call.
     ctx: ('assign', targets) | ('return',) | ('expr',)"""
     fn = helper.node
+    if getattr(helper, "generator", False):
+        raise NotInlinable("generator: substituted as an expression only")
     a = fn.args
     pos = [x.arg for x in a.posonlyargs + a.args]
     kwonly = [x.arg for x in a.kwonlyargs]
@@ -462,8 +467,50 @@ def _used_in_nested_scope(body, name):
     return False
 
 
+def generator_expression(helper):
+    """a generator function of the shape  [assignments;] for t in it: [assignments;] yield e   (or a single `yield from x`)
+    as the generator expression (e for t in it) it denotes; None for any other generator"""
+    body = _docless(list(helper.node.body))
+    env = {}
+    for i, st in enumerate(body):
+        if isinstance(st, ast.Assign) and len(st.targets) == 1 and isinstance(st.targets[0], ast.Name):
+            env[st.targets[0].id] = _Subst(dict(env), {}).visit(_copy(st.value))
+            continue
+        if i != len(body) - 1:
+            return None
+        if isinstance(st, ast.Expr) and isinstance(st.value, ast.YieldFrom):
+            e = _copy(st.value.value)
+            _strip_parents(e)
+            return _Subst(env, {}).visit(e)
+        if isinstance(st, ast.For) and not st.orelse:
+            tnames = {n.id for n in ast.walk(st.target) if isinstance(n, ast.Name)}
+            inner = {k: v for k, v in env.items() if k not in tnames}
+            for j, b in enumerate(st.body):
+                if isinstance(b, ast.Assign) and len(b.targets) == 1 and isinstance(b.targets[0], ast.Name) and b.targets[0].id not in tnames:
+                    inner[b.targets[0].id] = _Subst(dict(inner), {}).visit(_copy(b.value))
+                    continue
+                if j == len(st.body) - 1 and isinstance(b, ast.Expr) and isinstance(b.value, ast.Yield) and b.value.value is not None:
+                    elt = _copy(b.value.value)
+                    it = _copy(st.iter)
+                    tgt = _copy(st.target)
+                    for x in (elt, it, tgt):
+                        _strip_parents(x)
+                    # locals used more than once would duplicate their (possibly effectful) definition
+                    for k in inner:
+                        uses = sum(1 for n in ast.walk(b.value.value) if isinstance(n, ast.Name) and n.id == k)
+                        uses += sum(1 for kk, vv in inner.items() for n in ast.walk(vv) if isinstance(n, ast.Name) and n.id == k)
+                    elt = _Subst({k: v for k, v in inner.items()}, {}).visit(elt)
+                    it = _Subst(env, {}).visit(it)
+                    return ast.GeneratorExp(elt=elt, generators=[ast.comprehension(target=tgt, iter=it, ifs=[], is_async=0)])
+                return None
+        return None
+    return None
+
+
 def single_expression(helper):
     """the helper as one expression over its parameters (assignments + one return), or None"""
+    if getattr(helper, "generator", False):
+        return generator_expression(helper)
     body = _docless(list(helper.node.body))
     env = {}
     for st in body[:-1]:
